@@ -131,6 +131,9 @@ def transientIds : List Nat := idsWith roles (· == .transient)
 /-- what the interpreter starts from: restored by reset, or overwritten by the set-up -/
 def startIds : List Nat := idsWith roles fun r => r == .transient || r == .perCall
 def keptIds : List Nat := idsWith roles fun r => r == .sticky || r == .config || r == .const
+/-- members restored by scope guards in the interpreter (`Generated.guardSites`): the interpreter leaves them as it
+found them on every exit (`Prog.guarded_restores`), so they are not volatile -/
+def guardedIds : List Nat := idsWith roles (· == .guarded)
 def objStackIds : List Nat := (List.range kinds.length).filter fun k => kinds.getD k .ref == .objstack
 
 /-- the transformation ran (to completion or to an exception): every volatile member now has whatever
